@@ -823,12 +823,19 @@ def _upper(I, recv, args, kw):
 def _strip_like(fn, name, left, right):
     def h(I, recv, args, kw):
         ex = I.ex
-        if args and args[0] is not None:
-            raise Unsupported(f"str.{name} with chars")
+        chars = args[0] if args else None
         t = _S(I, recv)
-        I.use(f"str.{name}(): result is a slice of the input that drops only whitespace (uninterpreted + axioms)")
-        r = fn(t)
-        key = ("strip", name, t.sexpr())
+        if chars is not None:
+            if not isinstance(chars, str):
+                raise Unsupported(f"str.{name} with symbolic chars")
+            f = z3.Function(f"str_{name}[{chars!r}]", StrSort, StrSort)
+            allp = z3.Function(f"all_in[{chars!r}]", StrSort, BoolSort)
+        else:
+            f, allp = fn, P_isspace_all
+        I.use(f"str.{name}({'' if chars is None else repr(chars)}): the result is a slice of the input that drops only "
+              f"{'whitespace' if chars is None else 'characters of ' + repr(chars)} from the {'left' if left else ''}{' and ' if left and right else ''}{'right' if right else ''} (uninterpreted + axioms)")
+        r = f(t)
+        key = ("strip", name, chars, t.sexpr())
         if key not in ex.facts_seen:
             ex.facts_seen.add(key)
             a = ex.fresh(f"{name}_lo", "int").t
@@ -839,8 +846,13 @@ def _strip_like(fn, name, left, right):
                 ex.assume(a == 0)
             if not right:
                 ex.assume(b == ln)
-            ex.assume(P_isspace_all(z3.SubSeq(t, 0, a)))
-            ex.assume(P_isspace_all(z3.SubSeq(t, b, ln - b)))
+            ex.assume(allp(z3.SubSeq(t, 0, a)))
+            ex.assume(allp(z3.SubSeq(t, b, ln - b)))
+            if left and right:
+                # library fact: strip == rstrip o lstrip
+                lf = z3.Function(f"str_lstrip[{chars!r}]", StrSort, StrSort) if chars is not None else F_lstrip
+                rf = z3.Function(f"str_rstrip[{chars!r}]", StrSort, StrSort) if chars is not None else F_rstrip
+                ex.assume(r == rf(lf(t)))
         return SStr(r)
 
     return h
